@@ -35,7 +35,31 @@ RESP_TRUST = [
     "Content-Length on the wire is net/http's doing (not modelled)",
 ]
 
+def sig_c09(rec):
+    case = rec.get("case") or {}
+    if case.get("kind"):
+        return "codec:" + str(case.get("kind"))
+    if case.get("non_utf8_header"):
+        return "non-utf8-header-value"
+    if case.get("min_length") == 4294967295 and False:
+        return "min-length>=2^32"
+    if isinstance(case.get("first_prefix_accepted"), int) and case.get("first_prefix_accepted") >= 0:
+        return "truncated-record-accepted"
+    return "codec:record " + str(case.get("record_hex"))[:80]
+
+
 PROPS = {
+    "C09": {
+        "families": {"codec": {"quick": 60, "thorough": 1500, "search": 300}},
+        "signature": sig_c09,
+        "trusted_base": [
+            "model coq/Model/Codec.v is hand-written from cache/cache.go, HTTPResponse.Bytes/FromBytes and httpCache.Bytes/FromBytes (bytes.Buffer.Next = min(n, remaining); field-by-field mutation); tied by the codec family (exact record bytes; decode result and error flag on full records, every prefix, mutants)",
+            "encoding/json on http.Header and regexp.Compile are Section variables (oracles); the harness passes their observed answers",
+        ],
+        "assumptions": ["lengths and numeric fields below 2^32, a filter is a non-empty compilable source (hypotheses of the round-trip theorems)",
+                        "allocation behaviour of the real decoder is observed (panic/hang watchdog), not proved"],
+        "explanation": "resp/entry round trip, truncation detection for every oracle; model totality.",
+    },
     "C13": {
         "families": {"negotiate": {"quick": 400, "thorough": 8000, "search": 3000,
                                    "components": ["mismatch:C05", "mismatch:C13", "monitor:C05", "monitor:C13"]}},
